@@ -1,0 +1,72 @@
+//go:build verif
+
+// Package verifhook holds the seams used by the deterministic fault
+// simulator in /verif. With the build tag `verif` and no controller
+// installed (no YQ_VERIF_PLAN in the environment, no SetController call)
+// every function is still a no-op.
+package verifhook
+
+import (
+	"io"
+	"os"
+)
+
+// Controller decides what happens at each hook.
+type Controller interface {
+	Step(site string, detail []string) error
+	StepFile(site string, f *os.File)
+	Reader(stream, name string, r io.Reader) io.Reader
+	Writer(stream string, w io.Writer) io.Writer
+	Yield(site string)
+}
+
+var ctrl Controller
+
+// SetController installs c (nil removes it). Used by in-process simulators.
+func SetController(c Controller) { ctrl = c }
+
+func init() {
+	if p := os.Getenv("YQ_VERIF_PLAN"); p != "" {
+		ctrl = newPlanController(p)
+	}
+}
+
+// Step marks a named file-system step; the controller may return an
+// injected error (the real call is then skipped by the caller) or kill
+// the process.
+func Step(site string, detail ...string) error {
+	if ctrl == nil {
+		return nil
+	}
+	return ctrl.Step(site, detail)
+}
+
+// StepFile marks a step that owns an open file (close faults).
+func StepFile(site string, f *os.File) {
+	if ctrl != nil {
+		ctrl.StepFile(site, f)
+	}
+}
+
+// Reader returns a replacement for r, or nil when the stream is not hooked.
+func Reader(stream, name string, r io.Reader) io.Reader {
+	if ctrl == nil {
+		return nil
+	}
+	return ctrl.Reader(stream, name, r)
+}
+
+// Writer returns w, possibly wrapped.
+func Writer(stream string, w io.Writer) io.Writer {
+	if ctrl == nil {
+		return w
+	}
+	return ctrl.Writer(stream, w)
+}
+
+// Yield marks a scheduling point.
+func Yield(site string) {
+	if ctrl != nil {
+		ctrl.Yield(site)
+	}
+}
